@@ -32,12 +32,15 @@ pub enum Op {
     /// (called with the effective uid of `nobody`): open and stat succeed, the validating touch is
     /// refused, the call fails and must leave nothing behind
     AddOtherRefused,
-    /// the thread also uses a private `AtomicBaseTime` of its own (a public type): it updates it three
-    /// times with far-future pairs and snapshots it after each, asking the module for its base time
-    /// in between.  Nothing read from the private cell may leak into the module's base time.
-    OtherCell,
+    /// the thread also uses a private `AtomicBaseTime` of its own (a public type): it brings it to
+    /// sequence number 2 (resp. 3) with far-future pairs and reads it.  Nothing this thread read from
+    /// its private cell may show up as the module's base time, now or after later module calls.
+    /// (What the private cell itself returns is not this property's business.)
+    OtherCell1,
+    OtherCell2,
+    OtherCell3,
 }
-pub const OPS_ALL: [Op; 17] = [
+pub const OPS_ALL: [Op; 19] = [
     Op::AddTrusted,
     Op::ObserveTOld,
     Op::ObserveTNew,
@@ -54,7 +57,9 @@ pub const OPS_ALL: [Op; 17] = [
     Op::RetargetTrustedPath,
     Op::AddTrustedOther,
     Op::AddOtherRefused,
-    Op::OtherCell,
+    Op::OtherCell1,
+    Op::OtherCell2,
+    Op::OtherCell3,
 ];
 pub const OPS: [Op; 16] = [
     Op::AddTrusted,
@@ -286,20 +291,22 @@ pub fn child(env: &Env, history: &[Op]) -> Result<(), String> {
                 let f = std::fs::File::options().write(true).open(env.t_old()).map_err(|e| e.to_string())?;
                 f.set_times(std::fs::FileTimes::new().set_accessed(std::time::SystemTime::now())).map_err(|e| e.to_string())?;
             }
-            Op::OtherCell => {
+            Op::OtherCell1 | Op::OtherCell2 | Op::OtherCell3 => {
                 let cell = vouched_time::AtomicBaseTime::new();
-                for s in 1..=3u64 {
+                let n = match op {
+                    Op::OtherCell1 => 1u64,
+                    Op::OtherCell2 => 2,
+                    _ => 3,
+                };
+                for s in 1..=n {
                     let t = 4_102_444_800_000 + s; // 2100-01-01: far ahead of every change-time
                     cell.update((t, crate::window::VOUCH.vouch(t)));
-                    let (got, v) = cell.snapshot();
-                    if got != t || check_pair(got, v).is_err() {
-                        return Err(format!("{}: a private AtomicBaseTime updated to {} reads {}", step, t, got));
-                    }
-                    let b = unlocked().map_err(|e| format!("{}: {}", step, e))?;
-                    if b != base {
-                        return Err(format!("{}: right after this thread read its own private AtomicBaseTime (update #{}, far-future value), get_base_time_unlocked returned {} but the module's base time is {}", step, s, if b == t { "that private value".to_string() } else { b.to_string() }, base));
-                    }
                 }
+                let _ = cell.snapshot();
+                println!("COV private-cell-read");
+                // not a module call: the harness does not read the module's base time here, so that the
+                // private read stays the thread's most recent snapshot when the next module call runs
+                continue;
             }
             Op::RetargetTrustedPath => {
                 let _ = std::fs::remove_file(env.p_t());
@@ -510,10 +517,14 @@ pub fn run(ctx: &Ctx) -> Report {
     rec(ctx, &mut rep, &tag, &mut history, depth, &mut unit, &OPS, 0);
     // Non-initial start: a device is already trusted, then every sequence of observations (the ops
     // whose answer may depend on what was observed before) one level deeper than the full alphabet allows.
-    let observing = [Op::ObserveTOld, Op::ObserveTNew, Op::ObserveUNew, Op::MaybeObserveTNew, Op::MaybeObserveUNew, Op::GetUnlocked, Op::TouchTOld, Op::AddOtherRefused, Op::OtherCell];
+    let observing = [Op::ObserveTOld, Op::ObserveTNew, Op::ObserveUNew, Op::MaybeObserveTNew, Op::MaybeObserveUNew, Op::GetUnlocked, Op::TouchTOld, Op::AddOtherRefused, Op::OtherCell2, Op::OtherCell3];
     let mut history = vec![Op::AddTrusted];
     rec(ctx, &mut rep, &tag, &mut history, depth, &mut unit, &observing, 1);
     rep.note(format!("C19: after add_trusted_path, all sequences over the {} observing ops {:?} to depth {}", observing.len(), observing, depth));
+    // Non-initial start: the thread has read a private cell (sequence number 1) before the module is used at all.
+    let mut history = vec![Op::OtherCell1];
+    rec(ctx, &mut rep, &tag, &mut history, depth - 1, &mut unit, &OPS, 1);
+    rep.note(format!("C19: after a read of a private AtomicBaseTime at sequence number 1, all sequences over the {} ops to depth {}", OPS.len(), depth - 1));
     rep.max_depth = depth as u64;
     rep.note(format!("C19: all histories over {} ops {:?} to depth {} (each in a fresh child process, trusted device alternating between /dev/shm and the root file system), oracle after every call", OPS.len(), OPS, depth));
     rep
